@@ -659,3 +659,37 @@ def ok_return_blocks(fn):
     """Blocks that assign `_0 = Ok(..)`."""
     return sorted({bi for bi, si, dst, rv, s in fn.assigns()
                    if dst["l"] == 0 and not dst.get("p") and "agg" in rv and rv["agg"].get("v") == "Ok"})
+
+
+def fmt_calls(fn):
+    """Every `format_args!` with arguments in the body: [(call of Arguments::new, pieces, [arg local of each new_display/new_debug, in order])].
+
+    The template is the byte-string constant reaching args[0]; the arguments are the `[Argument; N]` array aggregate reaching args[1]."""
+    out = []
+    for c in fn.calls():
+        if not c.matches(("core::fmt::Arguments::new",)) or len(c.args) < 2:
+            continue
+        pieces = None
+        for l in chain_locals(fn, op_local(c.args[0])):
+            for d in defs_of(fn, l):
+                if d[0] == "assign" and "use" in d[4]:
+                    k = op_const(d[4]["use"])
+                    if k and "txt" in k:
+                        pieces = fmt_template_pieces(k["txt"])
+        arr = None
+        for l in chain_locals(fn, op_local(c.args[1])):
+            for d in defs_of(fn, l):
+                if d[0] == "assign" and "agg" in d[4] and d[4]["agg"].get("k") == "array":
+                    arr = d[4]["ops"]
+        if arr is None:
+            continue
+        args = []
+        for o in arr:
+            l = op_local(o)
+            src = None
+            for d in defs_of(fn, l):
+                if d[0] == "call" and d[4].args:
+                    src = (d[4], op_local(d[4].args[0]))
+            args.append(src)
+        out.append((c, pieces, args))
+    return out
